@@ -204,6 +204,7 @@ class SpecPlan(QueryPlan):
         self.colnames = []
         self.coltables = []
         self.col_cs = []
+        self.col_dbl = []
         self.grouped = False
         self.group_fns = []
         self.group_cs = []
@@ -420,12 +421,13 @@ class UnionPlan(QueryPlan):
         self.colnames = []
         self.coltables = []
         self.col_cs = []
+        self.col_dbl = []
 
     def run(self, penv):
         rows = []
         for i, p in enumerate(self.parts):
             rows.extend(p.run(penv))
-            if i > 0 and not self.alls[i - 1] or (i == 0 and len(self.parts) == 1 and False):
+            if i > 0 and not self.alls[i - 1]:      # a DISTINCT union de-duplicates everything to its left
                 seen = set()
                 uniq = []
                 for r in rows:
@@ -484,6 +486,7 @@ class Planner:
         u.colnames = list(first.colnames)
         u.coltables = [''] * len(first.colnames) if len(u.parts) > 1 else list(first.coltables)
         u.col_cs = [any(p.col_cs[i] for p in u.parts) for i in range(len(first.colnames))]
+        u.col_dbl = [any(p.col_dbl[i] for p in u.parts) for i in range(len(first.colnames))]
         lnames = [c.lower() for c in u.colnames]
         for e, desc in q.order:
             e0 = strip_paren(e)
@@ -541,7 +544,8 @@ class Planner:
                     _check_dups(names)
                     sp.sub = sub
                     sp.sub_cols = names
-                    src = Src(s.alias or s.name, names, dict(zip(names, sub.col_cs)), None, k)
+                    src = Src(s.alias or s.name, names, dict(zip(names, sub.col_cs)), None, k,
+                              {n for n, d in zip(names, sub.col_dbl) if d})
                 else:
                     t = self.engine.get_table(s.name)
                     sp.table = t
@@ -553,7 +557,8 @@ class Planner:
                 sp.sub = sub
                 sp.sub_cols = names
                 sp.lateral = bool(s.lateral)
-                src = Src(s.alias, names, dict(zip(names, sub.col_cs)), None, k)
+                src = Src(s.alias, names, dict(zip(names, sub.col_cs)), None, k,
+                          {n for n, d in zip(names, sub.col_dbl) if d})
             if src.lalias in seen_alias:
                 raise cond(1066, f"Not unique table/alias: '{src.alias}'")
             seen_alias.add(src.lalias)
@@ -746,6 +751,7 @@ class Planner:
             plan.colnames.append(name)
             plan.coltables.append(tbl)
             plan.col_cs.append(xc.static_cs(e, scope))
+            plan.col_dbl.append(xc.static_double(e, scope))
             aliases.setdefault(name.lower(), f)
         gscope.aliases = aliases
         gscope.group_cols = group_cols
@@ -781,6 +787,13 @@ class Planner:
                     plan.order.append((('pos', hit), desc, plan.col_cs[hit]))
                     continue
             plan.order.append((('fn', xc.compile(e0, gscope)), desc, xc.static_cs(e0, scope)))
+        for e, _d in q.order:
+            e0 = strip_paren(e)
+            target = e0
+            if e0.k == 'col' and e0.t is None and e0.name.lower() in lnames:
+                target = items_ast[lnames.index(e0.name.lower())][0]
+            if xc.static_enum(target, scope):
+                raise NotSupported('ORDER BY on an ENUM column (MySQL sorts ENUMs by member index)')
 
         lsc = Scope(ctx, parent_scope)   # LIMIT expressions: variables / params / literals only
         if q.limit is not None:
